@@ -7,7 +7,7 @@ CONSTANTS
   Variant = "code"
   MaxPert = 0
   Rounds = 14
-  OwnConds <- OCAll
+  OwnConds <- OCNone
   Presets <- BNo
   GenSels <- BNo
   ScaleRevs <- BNo
